@@ -127,30 +127,42 @@ def check_rank_formula(prog, rep, qual, rule='F-rank'):
     """rank == max(1, min(int(r), len(s) - dlen)) on a bounded grid."""
     fn = prog.func(qual)
     mod = fn.module
-    # the rank assignment:  <name> = max(c, min(int(<cap>), len(<S>) - <D>)),
-    # identified by its shape (max / min / len) -- not by variable names
-    target = None
+    # the rank variable = the name used as the upper bound of the factor
+    # slices  X[:, :v] / X[:v];  its final value is obtained by folding, in
+    # order, every straight-line assignment to it (no variable names assumed)
+    from .paths import linear
+    bounds = []
     for node in ast.walk(fn.node):
-        if isinstance(node, ast.Assign) and isinstance(node.value, ast.Call) \
-                and isinstance(node.value.func, ast.Name) and \
-                node.value.func.id == 'max' and \
-                isinstance(node.targets[0], ast.Name):
-            calls = {x.func.id for x in ast.walk(node.value)
-                     if isinstance(x, ast.Call) and
-                     isinstance(x.func, ast.Name)}
-            if {'min', 'len'} <= calls:
-                target = node
-    if target is None:
-        rep.unknown(rule, qual, 'rank = max(1, min(int(r), len(s) - dlen))',
+        if isinstance(node, ast.Slice) and node.lower is None and \
+                isinstance(node.upper, ast.Name) and node.step is None:
+            bounds.append(node.upper.id)
+    if not bounds:
+        rep.unknown(rule, qual, 'rank = max(1, min(cap, len - dropped))',
+                    'no factor slice bounded by a rank variable was found',
+                    line=fn.node.lineno, file=mod.path)
+        return
+    rank = max(set(bounds), key=bounds.count)
+    assigns = [st for st in linear(fn.node.body)
+               if isinstance(st, ast.Assign) and
+               isinstance(st.targets[0], ast.Name) and
+               st.targets[0].id == rank and
+               any(isinstance(x, ast.Call) and isinstance(x.func, ast.Name)
+                   and x.func.id in ('max', 'min') for x in ast.walk(st.value))]
+    if not assigns:
+        rep.unknown(rule, qual, 'rank = max(1, min(cap, len - dropped))',
                     'the rank selection expression was not found',
                     line=fn.node.lineno, file=mod.path)
         return
-    lens = {x.args[0].id for x in ast.walk(target.value)
-            if isinstance(x, ast.Call) and isinstance(x.func, ast.Name) and
-            x.func.id == 'len' and len(x.args) == 1 and
-            isinstance(x.args[0], ast.Name)}
-    free = {x.id for x in ast.walk(target.value) if isinstance(x, ast.Name)} \
-        - {'max', 'min', 'int', 'len'} - lens
+    target = assigns[-1]
+    lens, free = set(), set()
+    for st in assigns:
+        lens |= {x.args[0].id for x in ast.walk(st.value)
+                 if isinstance(x, ast.Call) and isinstance(x.func, ast.Name)
+                 and x.func.id == 'len' and len(x.args) == 1 and
+                 isinstance(x.args[0], ast.Name)}
+        free |= {x.id for x in ast.walk(st.value) if isinstance(x, ast.Name)}
+    free = free - {'max', 'min', 'int', 'len'} - lens - {rank} | \
+        ({rank} & set(fn.all_params))
     caps = sorted(n for n in free if n in fn.all_params)
     drops = sorted(n for n in free if n not in fn.all_params)
     if len(caps) != 1 or len(drops) != 1:
@@ -169,7 +181,12 @@ def check_rank_formula(prog, rep, qual, rule='F-rank'):
         env = {cap_name: cap, drop_name: dl}
         for l_ in lens:
             env['len(%s)' % l_] = ln
-        got = _eval_int(target.value, env)
+        got = None
+        for st in assigns:
+            got = _eval_int(st.value, env)
+            if got is None:
+                break
+            env[rank] = got
         want = max(1, min(cap, ln - dl))
         if got is None:
             rep.unknown(rule, qual, paths.src(mod, target),
